@@ -80,28 +80,40 @@ def _snap():
     return out
 
 
-FORMS = ["f:>a", "a∇f", ":a∇fa", "loss:>[a b]", "a∂g", "[a b]∂h", ".jacobian(g;a)"]
-TWO_PARAM = (3, 5)            # forms that differentiate with respect to a and b
+FORMS = ["f:>a", "a∇f", ":a∇fa", "loss:>[a b]", "a∂g", "[a b]∂h", ".jacobian(g;a)",
+         # a parameter named twice; functions whose value IS a stored global array (by reference / as a view of it)
+         "loss:>[a a]", "loss:>[b a a]", "a∂gr", ".jacobian(gv;a)", "[a]∂hr"]
+TWO_PARAM = (3, 5, 8)         # forms that differentiate with respect to a and b
 
 
 def purity(form: int, kind: int, kind2: int, k: int, mode: int) -> bool:
     """
-    pre: 0 <= form <= 6 and form == CFG.get('form', form)
+    pre: 0 <= form <= 11 and form == CFG.get('form', form)
     pre: 0 <= kind <= 4 and 0 <= kind2 <= 4 and kind == CFG.get('kind', kind)
-    pre: kind2 == 0 or ((form == 3 or form == 5) and (kind2 == 1 or kind2 == 3 or CFG.get('allkinds')))
+    pre: kind2 == 0 or ((form == 3 or form == 5 or form == 8) and (kind2 == 1 or kind2 == 3 or CFG.get('allkinds')))
     pre: 0 <= k <= CFG.get('kmax', 20)
     pre: 0 <= mode <= 2
     post: _
     """
     # k == 0: no evaluation misbehaves.  Whatever happens, afterwards every variable has the value and kind it had before.
     enter()
+    # every input comes from a finite domain: the solver enumerates (form, kinds, ordinal of the misbehaving evaluation, failure
+    # kind); each element then runs on real NumPy with the tracer off (nothing symbolic reaches the arrays anyway)
+    kind = pick([0, 1, 2, 3, 4], kind); kind2 = pick([0, 1, 2, 3, 4], kind2)
+    k = pick(list(range(21)), k); mode = pick([0, 1, 2], mode); form = pick(list(range(len(FORMS))), form)
+    with _world.untraced():
+        ok = _purity(form, kind, kind2, k, mode)
+    return verdict(ok)
+
+
+def _purity(form, kind, kind2, k, mode):
     ctx = K._context._context
     while len(ctx) > 3:
         ctx.popleft()
     for name in list(ctx[0].keys()):
         if str(name) != "fl":
             del ctx[0][name]
-    pa = _param(pick([0, 1, 2, 3, 4], kind)); pb = _param(pick([0, 1, 2, 3, 4], kind2))
+    pa = _param(kind); pb = _param(kind2)
     K['a'] = pa; K['b'] = pb
     K['cc'] = 0.5; K['other'] = np.asarray([9.0, 8.0])
     K('f::{(+/,/fl(x)*x)+cc}')                      # scalar-valued, monadic
@@ -109,8 +121,11 @@ def purity(form: int, kind: int, kind2: int, k: int, mode: int) -> bool:
     K('g::{(fl(x)*x)+cc}')                          # vector-valued
     K('h::{((+/,/fl(a)*a)+cc),(+/,/b)}')            # niladic, vector-valued
     K('fa::{(+/,/fl(a)*a)+cc}')                     # reads the GLOBAL a: the symbol-point form :a∇fa rebinds a for every probe
-    f = pick([0, 1, 2, 3, 4, 5, 6], form)
-    text = FORMS[f]
+    K('gr::{fl(x);other}')                          # the value is the stored global array `other` itself
+    K('gv::{fl(x);1_other3}')                       # ... a view of a stored global array
+    K('hr::{fl(a);other}')
+    K['other3'] = np.asarray([7.0, 6.0, 5.0])
+    text = FORMS[form]
     before = _snap()
     f_before = None
     _S["n"] = 0; _S["at"] = -1
@@ -129,14 +144,14 @@ def purity(form: int, kind: int, kind2: int, k: int, mode: int) -> bool:
         K['cc'] = 0.5
     after = _snap()
     if len(ctx) != 3:
-        return verdict(False)
+        return False
     if after != before:
-        return verdict(False)
+        return False
     try:
         f_after = _val(K('f(a)'))
     except Exception:
         f_after = "err"
-    return verdict(f_after == f_before)
+    return f_after == f_before
 
 
 def bounds(tier):
@@ -148,12 +163,12 @@ def bounds(tier):
 def obligations(tier):
     q = tier == "quick"
     obs = []
-    for form in range(7):
+    for form in range(len(FORMS)):
         if form in TWO_PARAM:       # two parameters: split by the kind of the first one
             for kind in range(5):
                 obs.append({"name": "purity form=%s first parameter kind %d" % (FORMS[form], kind), "fn": "purity",
-                            "cfg": {"form": form, "kind": kind, "kmax": 12 if q else 20, "allkinds": not q}, "timeout": 600 if q else 1500})
+                            "cfg": {"form": form, "kind": kind, "kmax": 20, "allkinds": True}, "timeout": 600 if q else 1500})
         else:
-            obs.append({"name": "purity form=%s" % FORMS[form], "fn": "purity", "cfg": {"form": form, "kmax": 12 if q else 20},
+            obs.append({"name": "purity form=%s" % FORMS[form], "fn": "purity", "cfg": {"form": form, "kmax": 20},
                         "timeout": 400 if q else 1500})
     return obs
